@@ -1194,11 +1194,24 @@ def run(ctx):
     mods = env.import_cirq(('cirq_google',))
     cirq = mods['cirq']
     ctx.rule = ('collector: every completion order / batch / failure choice at every quiescent point of the loop for <=4 jobs x '
-                'concurrency 1..3 x budgets (DFS), plus random oracles (nested job trees, 0..7 jobs, empty answers), budgets, '
-                'batches, failures and early stops; non-trivial = at least two jobs started; distinct by (concurrency, budget, '
-                'oracle, schedule)')
+                'concurrency 1..3 x budgets (DFS), random oracles (nested job trees, 2..8 jobs, empty answers), budgets, batches, '
+                'failures and early stops, and the real PauliSumCollector as adaptive job source; non-trivial = at least two jobs '
+                'started. stream: (A) one submit along every fault sequence of length <=2 (quick) / <=3 (thorough) over {undisturbed, '
+                'break before/after handling with a retryable and a fatal exception, reject with each already-exists/does-not-exist '
+                'code and INTERNAL, late handling of an overtaken request} x 4 initial server states, plus random longer ones; '
+                'non-trivial = at least one fault. (B) the whole manager: every event sequence of depth 5 (quick) / 6-7 (thorough) '
+                'over the state-dependent menu {submit, handle k-th request, deliver k-th response, retryable / fatal break, cancel}, '
+                'plus random schedules with up to 4 submits, shared programs, pre-existing programs/jobs, failing jobs, all error '
+                'codes, all 14 exception kinds, cancel-while-response-pending, stop(); non-trivial = >=2 requests and >=1 '
+                'fault/cancel. distinct by canonical input')
     ctx.assumptions += ['duet scheduler ticked by hand: completions are applied only when no task is ready (quiescent points)',
-                        'the fake Sampler returns duet futures completed by the driver; results are integers']
+                        'the fake Sampler returns duet futures completed by the driver; results are integers',
+                        'StreamManager runs on an asyncio loop that only the driver turns (AsyncioExecutor.submit unchanged, no thread); '
+                        'every event is followed by running the loop until no callback is ready',
+                        'fake Quantum Engine: creation refused when the program/job exists, GetQuantumResult answers '
+                        'JOB_DOES_NOT_EXIST whenever the job is missing; StreamError.message carries the code name',
+                        'the fake stream keeps draining the old request iterator until the None sentinel (as the upstream test fake '
+                        'does); behaviour of the real gRPC layer is not modelled']
     err = tables.regenerate(['RetryTable'])
     if err['RetryTable']:
         ctx.mark_broken('table:RetryTable', err['RetryTable'])
